@@ -103,6 +103,35 @@ def register(OPS, drv):
             "eaexts": [[k, v] for k, v in ast.literal_eval(config.get("GopherEntry", "eaexts")).items()],
         }
 
+    def op_documented(job):
+        """The MIME tables the documentation promises, computed WITHOUT pygopherd's start-up code:
+        a fresh interpreter's mimetypes (pristine encodings/suffix maps; types after the library's
+        own init() on the configured files) and the [pygopherd] encoding option evaluated as written."""
+        import json
+        import subprocess
+        import sys
+        import types
+        config = drv.make_config("/nonexistent-root", job.get("config"))
+        files = [x for x in config.get("pygopherd", "mimetypes").split(":") if os.path.isfile(x) and os.access(x, os.R_OK)]
+        code = ("import mimetypes, json, sys\n"
+                "enc = list(mimetypes.encodings_map.items())\n"
+                "mimetypes.init(json.loads(sys.argv[1]))\n"
+                "print(json.dumps({'enc': enc, 'suffix': list(mimetypes.suffix_map.items()),"
+                " 'strict': list(mimetypes.types_map.items()), 'common': list(mimetypes.common_types.items())}))\n")
+        p = subprocess.run([sys.executable, "-c", code, json.dumps(files)], stdout=subprocess.PIPE, text=True, check=True,
+                           env={"PATH": os.environ.get("PATH", "")})
+        fresh = json.loads(p.stdout.strip().splitlines()[-1])
+        fake = types.SimpleNamespace(encodings_map=dict(fresh["enc"]))
+        written = eval(config.get("pygopherd", "encoding"), {"mimetypes": fake})
+        if isinstance(written, dict):
+            written = list(written.items())
+        enc = {}
+        for k, v in written:
+            enc[k] = v
+        return {"suffix_map": fresh["suffix"], "encodings_map": [[k, v] for k, v in enc.items()],
+                "encoding_option_as_written": [[k, v] for k, v in written],
+                "types_strict": fresh["strict"], "types_common": fresh["common"]}
+
     def op_guess(job):
         setup(job)
         return [list(mimetypes.guess_type(s, strict=False)) for s in job["inputs"]]
@@ -190,6 +219,7 @@ def register(OPS, drv):
         return {"root": w.root, "results": res}
 
     OPS["c04_live"] = op_live
+    OPS["c04_documented"] = op_documented
     OPS["c04_escape"] = op_escape
     OPS["c04_dec"] = op_dec
     OPS["c04_splitext"] = op_splitext
